@@ -6,6 +6,7 @@ S = core.tla_set
 
 
 def run(ctx):
+    ctx.kats(["KAT_Bn", "BigNatAgree"], seed_const=("GF2Agree", "BigNatAgree"))
     out = os.path.join(ctx.scratch, "c09.ndjson")
     quick = ctx.tier == "quick"
     base = [0, 1, 2, 3, 4, 5, 6]
